@@ -15,6 +15,7 @@ Protocol (one case):
   res <r> <inc> <interval> <scale> <gated> <clk> <restart>
   spawn | go r | adv c dt | pause r | resume r | sendp r | sendr r | stop r | open | hold r |
   release r | setin r v | mapply r n=v,.. | msnap r n,n,.. | join        (each followed by `impl`)
+  fromrt n,n,.. | scyc r inp | spaused r | sresume r | sjoin r | sfinal    (api and stress cases)
   stress-* …                                                          (second kind of case, see below)
   end
 Status: `<ret> | r0=<pos>,<state>,e<execs>,w<oks>,v<saves>[=<rc>],<err> … | sh=<cnt>,<pa>,<pb> | cyc=… | snap=…`
@@ -26,6 +27,7 @@ structure D where
   n : Nat := 0
   c0 : Int := 0
   p0 : Int := 0
+  names : List Nat := [0, 1, 2]
   incs : Array Int := #[]
   cfgs : Array Cfg := #[]
   inp : Array Int := #[]
@@ -39,9 +41,18 @@ structure D where
   stressShared : Store := Store.empty
   stressStores : Array Store := #[]
   stressPaused : Array Bool := #[]
+  stressEnded : Array Bool := #[]
+  stressExecs : Array Nat := #[]
+  stressErr : Array (Option Err) := #[]
 
-def D.sys (d : D) : Sys :=
-  counterSys d.n (fun r => d.incs.getD r 0) (fun r _ => d.inp.getD r 0) (fun r => d.cfgs.getD r {}) d.c0 d.p0
+/-- The counter programs with the case's set of shared names (`SharedGlobals::from_runtime` of
+the first runtime). -/
+def sysWith (d : D) (input : Nat → Nat → Int) : Sys :=
+  { counterSys d.n (fun r => d.incs.getD r 0) input (fun r => d.cfgs.getD r {}) d.c0 d.p0 with
+    names := d.names
+    initShared := (fromRuntime d.names (counterInit d.c0 d.p0)).getD Store.empty }
+
+def D.sys (d : D) : Sys := sysWith d (fun r _ => d.inp.getD r 0)
 
 /-- Re-tabulate the function-valued fields so that lookups stay O(1). -/
 def D.normalise (d : D) : D :=
@@ -161,12 +172,18 @@ of a resource between `spaused r` (the controller read `Paused`) and `sresume r`
 
 def stressCycle (d : D) (r : Nat) (inp : Int) : D × String :=
   if d.stressPaused.getD r false then (d, "m forbidden-while-paused") else
-  let S : Sys := counterSys d.n (fun r => d.incs.getD r 0) (fun _ _ => inp) (fun r => d.cfgs.getD r {}) d.c0 d.p0
+  -- `tick_with_shared` on a faulted runtime: `execute_cycle` returns `ResourceFaulted` at once and
+  -- the two syncs copy the shared values in and out again; a thread that ended runs nothing
+  if d.stressEnded.getD r false then (d, "m fault") else
+  let S : Sys := sysWith d (fun _ _ => inp)
   let R : Res := { store := d.stressStores.getD r Store.empty }
   let pre := (syncInto S.names d.stressShared R.store).1
   let out := crit S r R d.stressShared
   let st' := out.1.store
-  let d' := { d with stressShared := out.2, stressStores := d.stressStores.setIfInBounds r st' }
+  let d' := { d with stressShared := out.2, stressStores := d.stressStores.setIfInBounds r st',
+                     stressExecs := d.stressExecs.setIfInBounds r (d.stressExecs.getD r 0 + 1),
+                     stressEnded := d.stressEnded.setIfInBounds r out.1.pc.isDone,
+                     stressErr := d.stressErr.setIfInBounds r out.1.lastErr }
   if out.1.oks > 0 then
     (d', s!"m ok {showOpt (pre 0)}/{showOpt (pre 1)}/{showOpt (pre 2)}/{showOpt (st' 0)}/{showOpt (st' 3)}")
   else (d', "m fault")
@@ -179,16 +196,19 @@ def step (d : D) (line : String) : D × Option String :=
   | "tag" :: _ => (d, none)
   | "#" :: _ => (d, none)
   | [] => (d, none)
-  | ["sys", n, c0, p0] =>
-    match n.toNat?, c0.toInt?, p0.toInt? with
-    | some n, some c0, some p0 =>
-      ({ d with n := n, c0 := c0, p0 := p0, incs := Array.replicate n 0, cfgs := Array.replicate n {},
+  | ["sys", n, c0, p0, ns] =>
+    match n.toNat?, c0.toInt?, p0.toInt?, parseNatList? ns with
+    | some n, some c0, some p0, some ns =>
+      ({ d with n := n, c0 := c0, p0 := p0, names := ns, incs := Array.replicate n 0, cfgs := Array.replicate n {},
                 inp := Array.replicate n 0, tokens := Array.replicate n 0, hold := Array.replicate n false,
                 snapSeen := Array.replicate n 0,
                 stressStores := Array.replicate n (counterInit c0 p0),
                 stressPaused := Array.replicate n false,
-                stressShared := fun m => if m < 3 then counterInit c0 p0 m else none }, none)
-    | _, _, _ => (d, some "bad-op")
+                stressEnded := Array.replicate n false,
+                stressExecs := Array.replicate n 0,
+                stressErr := Array.replicate n none,
+                stressShared := (fromRuntime ns (counterInit c0 p0)).getD Store.empty }, none)
+    | _, _, _, _ => (d, some "bad-op")
   | ["res", r, inc, iv, sc, g, c, rs] =>
     match r.toNat?, inc.toInt?, iv.toInt?, sc.toNat?, parseBool? g, c.toNat?, parseBool? rs with
     | some r, some inc, some iv, some sc, some g, some c, some rs =>
@@ -242,10 +262,9 @@ def step (d : D) (line : String) : D × Option String :=
     | some r, some v => if r ≥ d.n then (d, some "bad-op") else finishOp { d with inp := d.inp.setIfInBounds r v } "-"
     | _, _ => (d, some "bad-op")
   | ["join"] =>
-    -- stop every thread, let everything run, wait for the end
-    let es := (List.range d.n).flatMap fun r => [Env.setStop r, Env.interrupt (d.cfgs.getD r {}).clk]
-    let d1 := envs d es
-    finishOp { d1 with free := true, hold := Array.replicate d.n false } "-"
+    -- end of the script (every thread has been sent `stop` by ordinary `stop r` operations):
+    -- remove every obstacle of the script and let everything run to the end
+    finishOp { d with free := true, hold := Array.replicate d.n false } "-"
   -- stress cases
   | ["scyc", r, inp] =>
     match r.toNat?, inp.toInt? with
@@ -259,6 +278,23 @@ def step (d : D) (line : String) : D × Option String :=
   | ["sresume", r] =>
     match r.toNat? with
     | some r => ({ d with stressPaused := d.stressPaused.setIfInBounds r false }, none)
+    | none => (d, some "bad-op")
+  | ["fromrt", ns] =>
+    match parseNatList? ns with
+    | some ns =>
+      (d, some (if (fromRuntime ns (counterInit d.c0 d.p0)).isSome then "m ok" else "m err-undefined"))
+    | none => (d, some "bad-op")
+  | ["sjoin", r] =>
+    -- after `stop`: a thread that faulted stays Faulted and saved nothing; every other thread is
+    -- Stopped and saved its retained counter (= number of its cycles that returned Ok) exactly once
+    match r.toNat? with
+    | some r =>
+      if r ≥ d.n then (d, some "bad-op") else
+      let e := d.stressExecs.getD r 0
+      if d.stressEnded.getD r false then
+        (d, some s!"m D,faulted,e{e},v0,{showErr (d.stressErr.getD r none)}")
+      else
+        (d, some s!"m D,stopped,e{e},v1={showOpt ((d.stressStores.getD r Store.empty) 4)},-")
     | none => (d, some "bad-op")
   | ["sfinal"] =>
     (d, some s!"m {showOpt (d.stressShared 0)},{showOpt (d.stressShared 1)},{showOpt (d.stressShared 2)}")
